@@ -125,7 +125,7 @@ class EvalNamespace(FunctionContract):
     props = ('C16',)
 
     def scenarios(self):
-        return ['plain', 'with-locals', 'custom-builtins', 'name-error', 'name-error-no-suggestion', 'backtick']
+        return ['plain', 'with-locals', 'custom-builtins', 'name-error', 'name-error-no-suggestion', 'name-error-two-suggestions', 'backtick']
 
     def setup(self, interp, scenario):
         import builtins as _b
@@ -151,7 +151,7 @@ class EvalNamespace(FunctionContract):
 
         def closest(interp_, o, args, kwargs, node):
             e['closest_arg'] = args[0]
-            return ['X'] if scenario == 'name-error' else []      # no variable name is close to the undefined one
+            return ['X'] if scenario == 'name-error' else ['x', 'X'] if scenario == 'name-error-two-suggestions' else []      # one, several or no close names
 
         class EvalSpec:
             def vc_call(self_, interp_, args, kwargs, node):
